@@ -6440,8 +6440,16 @@ size_t ZSTD_compressStream2( ZSTD_CCtx* cctx,
             cctx->producedCSize += (U64)(output->pos - opos);
             if ( ZSTD_isError(flushMin)
               || (endOp == ZSTD_e_end && flushMin == 0) ) { /* compression completed */
-                if (flushMin == 0)
-                    ZSTD_CCtx_trace(cctx, 0);
+                if (flushMin == 0) {
+                    /* each worker only knows the size of its own job (a multi-job frame never reaches
+                     * the check of ZSTD_compressEnd) : the pledged size of the whole frame is controlled here */
+                    if ( cctx->pledgedSrcSizePlusOne != 0
+                      && cctx->pledgedSrcSizePlusOne != cctx->consumedSrcSize + 1 ) {
+                        flushMin = ERROR(srcSize_wrong);
+                    } else {
+                        ZSTD_CCtx_trace(cctx, 0);
+                    }
+                }
                 ZSTD_CCtx_reset(cctx, ZSTD_reset_session_only);
             }
             FORWARD_IF_ERROR(flushMin, "ZSTDMT_compressStream_generic failed");
